@@ -366,6 +366,9 @@ macro_rules! fonts {
 }
 fn glyphs_from_u8_data(font_height: usize, mut data: &[u8]) -> HashMap<char, Glyph> {
     let mut glyphs = HashMap::new();
+    if font_height == 0 {
+        return glyphs;
+    }
     let mut ch = 0;
     while !data.is_empty() {
         let glyph = Glyph {
